@@ -229,7 +229,7 @@ func (ds *Describer) d1(v ssa.Value, depth int) *VD {
 		}
 		return r
 	case *ssa.Slice:
-		if a, ok := x.X.(*ssa.Alloc); ok && a.Comment == "varargs" {
+		if a, ok := x.X.(*ssa.Alloc); ok && (a.Comment == "varargs" || a.Comment == "slicelit") {
 			r := &VD{Kind: "varargs"}
 			if a.Referrers() != nil {
 				for _, ref := range *a.Referrers() {
